@@ -32,6 +32,36 @@ for ii in range(n_spokes):
 """
 
 
+REF_RAMPS = """
+ramppts = int(np.ceil(np.max(flat) / dgdt / dt))
+ramp_up = np.linspace(0, ramppts, num=ramppts + 1) / ramppts * np.max(flat)
+ramp_dn = np.linspace(ramppts, 0, num=ramppts + 1) / ramppts * np.max(flat)
+"""
+REF_CAPPED = """
+flat = np.ones((1, int(np.ceil(area / gmax / dt))))
+flat = flat / np.sum(flat) * area / dt
+"""
+
+
+def _amp_slew(run, M, f, vn, o, pieces, ctext):
+    up, flat, dn = pieces
+    amp = T.app("max_of", flat)
+    gmax = T.sym("gmax", real=True)
+    guard = vn.compare(ast.LtE(), amp, gmax)
+    guarded = any(c == guard for c in o.conds)
+    capped = [r for r in VN(M, f, real=SCALARS, scalars=SCALARS).run(ast.parse(REF_CAPPED).body, State()) if r.status == "live"]
+    is_capped = len(capped) == 1 and isinstance(capped[0].env.get("flat"), T.Poly) and T.eq(flat, capped[0].env["flat"])
+    run.check(guarded or is_capped, "Z4", "min_trap_grad plateau[%s]" % ctext[:60], f.loc(), "plateau guarded by max(flat) <= gmax or built with ceil(area/gmax/dt) samples",
+              "min_trap_grad: on the path [%s] the plateau %s is neither checked against gmax (no `max(flat) > gmax` test on this path) nor built with ceil(area/gmax/dt) "
+              "samples: its amplitude area/(n*dt) can exceed gmax (the discretised count n may round below area/(gmax*dt))" % (ctext[:160], T.show(flat, 160)),
+              stmt="Z4:" + ctext[:80])
+    ref = [r for r in VN(M, f, real=SCALARS, scalars=SCALARS).run(ast.parse(REF_RAMPS).body, State({"flat": flat})) if r.status == "live"]
+    ok = len(ref) == 1 and isinstance(up, T.Poly) and isinstance(dn, T.Poly) and T.eq(up, ref[0].env["ramp_up"]) and T.eq(dn, ref[0].env["ramp_dn"])
+    run.check(ok, "Z5", "min_trap_grad ramps[%s]" % ctext[:60], f.loc(), "ramps rise to exactly max(plateau) in ceil(A/dgdt/dt) steps",
+              "min_trap_grad: on the path [%s] the ramps are %s / %s; expected linspace(0, R, R+1)/R*A and its mirror with A = max(plateau) and R = ceil(A/dgdt/dt) "
+              "(otherwise the waveform jumps at the plateau or a ramp step exceeds dgdt*dt)" % (ctext[:100], T.show(up, 200), T.show(dn, 120)), stmt="Z5:" + ctext[:80])
+
+
 def _infeasible(p, f):
     """a syntactic path that cannot end in a return: it branches against the constant just assigned to the tested variable, or it tests
     a local that no statement on the path has assigned (UnboundLocalError at run time)"""
@@ -70,6 +100,11 @@ def check(run, M, tier):
     run.level = "proof"
     run.rule("Z1", "endpoint domain {Z,?}^2: every waveform returned on a positive-area path of trap_grad / min_trap_grad starts and ends at 0")
     run.rule("Z2", "sum(trap)*dt == area (trap_grad) and sum(flat)*dt == area with flat the middle piece (min_trap_grad), by linearity of sum over scalar factors")
+    run.rule("Z4", "min_trap_grad plateau <= gmax: the returned plateau is either guarded by `not max(flat) > gmax` on its path or has ceil(area/gmax/dt) samples "
+                   "(amplitude area/(n dt) <= gmax because n >= area/(gmax dt))")
+    run.rule("Z5", "min_trap_grad ramps: linspace(0..R)/R*A and its mirror with A = max(plateau) (no jump at the plateau) and R = ceil(A/dgdt/dt) (step A/R <= dgdt*dt)")
+    run.rule("Z6", "the designers are plain functions: no memoising decorator hands the same waveform array to several callers")
+    run.trust("arithmetic fact: for X > 0, ceil(X) >= X, hence Y / ceil(Y / L) <= L")
     run.rule("Z3", "spokes_grad builds its slice-select lobes from min_trap_grad and its blips / refocusing lobe from trap_grad with the documented areas")
     for q in ("sigpy.mri.rf.trajgrad.trap_grad", "sigpy.mri.rf.trajgrad.min_trap_grad"):
         f = M.func(q)
@@ -134,10 +169,19 @@ def check(run, M, tier):
                 n_area += 1
                 if not okm:
                     continue
+                _amp_slew(run, M, f, vn, o, pieces, ctext)
                 tot = T.mul(vn.lin_sum(pieces[1]), dt)
                 run.check(T.eq(tot, area), "Z2", "min_trap_grad flat area[%s]" % ctext[:60], f.loc(), "sum(flat top)*dt == area",
                           "min_trap_grad: on the path [%s] sum(flat top)*dt normalises to %s, not to the requested area" % (ctext[:120], T.show(tot, 200)), stmt="Z2:flat:" + ctext[:80])
         run.floor("Z2-" + name, 2, n_area, "area identities of " + name)
+    # ---- Z6
+    for q in ("sigpy.mri.rf.trajgrad.trap_grad", "sigpy.mri.rf.trajgrad.min_trap_grad"):
+        f = M.func(q)
+        decs = [unparse(d) for d in f.node.decorator_list]
+        caching = [d for d in decs if "cache" in d.lower() or "memo" in d.lower()]
+        run.check(not caching, "Z6", q.split(".")[-1] + " decorators", f.loc(), "no memoising decorator",
+                  "%s is decorated with %s: every call with equal arguments returns the *same* array object, so a caller that rescales or sign-flips its waveform in "
+                  "place changes what all later calls return (requested area / k-space increment no longer met)" % (q.split(".")[-1], caching), stmt="Z6:" + q)
     # ---- Z3 spokes
     f = M.func("sigpy.mri.rf.trajgrad.spokes_grad")
     from ..vn import iter_once_loop
